@@ -912,6 +912,15 @@ func c17Guards(p *Prog, r *Report) {
 				if p.callIs(fi.Pkg, c, kDirRepoCreate) {
 					calls["create"] = true
 				}
+				// through a helper of the package (create / createFresh)
+				if callee := p.staticCallee(fi.Pkg, c); callee != nil && callee.Pkg == fi.Pkg {
+					if p.funcCallsDeep(callee, p.keysPred(kDirRepoRemove)) {
+						calls["remove"] = true
+					}
+					if p.funcCallsDeep(callee, p.keysPred(kDirRepoCreate)) {
+						calls["create"] = true
+					}
+				}
 			}
 			return true
 		})
@@ -932,9 +941,15 @@ func c17Guards(p *Prog, r *Report) {
 	const limit = 100
 	// mapWorld: the answer of every "_, ok := localMap[key]" in the evaluated body (the rule runs both worlds)
 	mapWorld := false
+	// keptFree: after a rotation the element offered to the caller still carries the free space measured for its
+	// root (store.Set skips a directory that reports none)
+	keptFree := true
+	var lastCreated *Val // the directory handed to the repository's Create in the last evaluated body
 	evalBody := func(loop *loopRef, count int64) (creates, removes bool, resetCount, newName, sameRoot bool, err error) {
 		body := p.NewFlat(fi.Pkg, loop.body)
+		body.WalkExprStmts = true
 		valObj := loop.val
+		var created *Val
 		env := &Env{P: p, Pkg: fi.Pkg, Vars: map[types.Object]*Val{}}
 		if recv := paramObjs(loop.owner)[-1]; recv != nil {
 			// the limit is the use case's integer field, whatever it is called
@@ -968,6 +983,33 @@ func c17Guards(p *Prog, r *Report) {
 			if ix, ok := e.(*ast.IndexExpr); ok {
 				_ = ix
 				return item, true
+			}
+			// the repository calls and the name generator, wherever they sit (the loop body or a helper of the
+			// package the body calls): recorded, and they succeed
+			if c, ok := e.(*ast.CallExpr); ok {
+				switch {
+				case p.callIs(env.Pkg, c, kDirRepoCreate):
+					creates = true
+					if len(c.Args) == 2 {
+						if v, err := env.Eval(c.Args[1]); err == nil && v != nil {
+							for v.Ptr != nil {
+								v = v.Ptr
+							}
+							cp := *v
+							cp.Fields = map[string]*Val{}
+							for k, fv := range v.Fields {
+								cp.Fields[k] = fv
+							}
+							created = &cp
+						}
+					}
+					return &Val{Nil: true}, true
+				case p.callIs(env.Pkg, c, kDirRepoRemove):
+					removes = true
+					return &Val{Nil: true}, true
+				case p.callIs(env.Pkg, c, kGenerate):
+					return &Val{Tag: "generated"}, true
+				}
 			}
 			return nil, false
 		}
@@ -1023,6 +1065,24 @@ func c17Guards(p *Prog, r *Report) {
 				}
 			}
 		}
+		// what the evaluation itself saw: the directory handed to Create and the element left in the list
+		if created != nil && created.Fields != nil {
+			if c := created.Fields["Count"]; (c != nil && c.C != nil && c.C.ExactString() == "0") || (c == nil && created.Complete) {
+				resetCount = true
+			}
+			lastCreated = created
+			if nm := created.Fields["Name"]; nm != nil && nm.Tag == "generated" {
+				newName = true
+			}
+			if rt := created.Fields["Root"]; rt == nil || rt.C == nil || rt.C.ExactString() != `"/r"` {
+				sameRoot = false
+			}
+		}
+		if removes && creates {
+			if fr := item.Fields["Free"]; fr == nil || fr.C == nil || fr.C.ExactString() != "1" {
+				keptFree = false
+			}
+		}
 		return
 	}
 	// C17.b
@@ -1066,6 +1126,16 @@ func c17Guards(p *Prog, r *Report) {
 		}
 		return true
 	})
+	// the same, as the evaluation saw it (the literal may sit in a helper of the package)
+	lastCreated = nil
+	if _, _, _, _, _, err := evalBody(rootLoop, 0); err == nil && lastCreated != nil {
+		if nm := lastCreated.Fields["Name"]; nm != nil && nm.Tag == "generated" {
+			nameOK = true
+		}
+		if rt := lastCreated.Fields["Root"]; rt != nil && rt.C != nil && rt.C.ExactString() == `"/r"` {
+			rootOK = true
+		}
+	}
 	r.Check(nameOK && rootOK, "C17.b", kDirGet+"#created-dir", p.pos(rootLoop.node), "new directory: generated name under the configured root", "a created directory does not take a generated name under the configured root's path")
 	// creation precedes the listing and is error-gated
 	f := p.FlatOf(fi)
@@ -1107,8 +1177,10 @@ func c17Guards(p *Prog, r *Report) {
 		return // not evaluable: reported as undecided above
 	}
 	r.Check(good, "C17.c", kDirGet+"#rotation-guard", p.pos(dirLoop.node), "rotate iff count >= limit; fresh name, same root, count 0", "the rotation guard is wrong ("+detail+"): a directory at its limit receives another file, or directories are rotated early")
+	r.Check(keptFree, "C17.c", kDirGet+"#replacement-keeps-the-measured-free-space", p.pos(dirLoop.node), "the replacement offered in place of a full directory reports the free space measured for its root",
+		"the replacement offered in place of a full directory does not carry the free space measured for its root (it reports 0): store.Set skips a directory without free space, so the write that meets a full directory finds no directory to write to although the root has room")
 	// order Remove -> Create within the rotation body
-	body := p.NewFlat(fi.Pkg, dirLoop.body)
+	body := p.NewFlatInl(dirLoop.owner, dirLoop.body)
 	rem := body.CallNodes(kDirRepoRemove)
 	cre := body.CallNodes(kDirRepoCreate)
 	ok := len(rem) > 0 && len(cre) > 0
